@@ -45,7 +45,7 @@ def run(args):
               "positions; clamp targets. distinct = (module description, recordings); non-trivial = >= 3 recordings incl. a non-voltage state")
     nm = {"quick": 1, "thorough": 5}[args.tier] * (2 if args.mode == "search" else 1)
     for t in range(nm):
-        kind = "net" if (args.shard + t) % 2 == 0 else "cell"
+        kind = "net" if (args.shard + t) % 4 != 3 else "cell"
         backend = BACKENDS[(args.shard + t) % 3]
         if kind == "net":
             mod, desc = random_network(rng, syn_types=list(rng.choice(["IonotropicSynapse", "TestSynapse", "TanhRateSynapse"], size=int(rng.integers(2, 4)), replace=False)), nsyn=int(rng.integers(3, 7)))
@@ -151,7 +151,18 @@ def run(args):
             es = mod.edges.index[mod.edges["type"] == typ].to_numpy()
             e = int(rng.choice(es)); sv = rng.uniform(0, 1, nsteps)
             mod.select(edges=[e]).record(syn_state, verbose=False); mod.select(edges=[e]).clamp(syn_state, jnp.asarray(sv), verbose=False); targets.append((syn_state, e, sv))
-        rc = np.asarray(jx.integrate(mod, voltage_solver=backend), dtype=np.float64)
+            rest = [int(x) for x in es if int(x) != e]
+            if rest:      # a SECOND clamp on the same synaptic state, on another edge (N1)
+                e2 = int(rng.choice(rest)); sv2 = rng.uniform(0, 1, nsteps)
+                mod.select(edges=[e2]).record(syn_state, verbose=False); mod.select(edges=[e2]).clamp(syn_state, jnp.asarray(sv2), verbose=False); targets.append((syn_state, e2, sv2))
+                inds = np.asarray(mod.external_inds[syn_state]).tolist()
+                if inds != [e, e2] or mod.externals[syn_state].shape[0] != 2:
+                    R.spec_fail(dict(kind="clamp-indices", state="synapse"), f"two clamps on edges {[e, e2]} registered indices {inds} for {mod.externals[syn_state].shape[0]} data rows", dict(state=syn_state, **inp), inds)
+        try:
+            rc = np.asarray(jx.integrate(mod, voltage_solver=backend), dtype=np.float64)
+        except Exception as ex:
+            R.spec_fail(dict(kind="integrate-raises-with-clamps", err=type(ex).__name__), f"integrate raises {type(ex).__name__} with clamps on {[(s, i) for s, i, _ in targets]}: {str(ex)[:200]}", inp, repr(ex)[:300])
+            mod.base.externals.clear(); mod.base.external_inds.clear(); continue
         R.evaluations += 1
         for r, (s, i, vals) in enumerate(targets):
             if not np.allclose(rc[r, 1:], vals, rtol=0, atol=0):
